@@ -35,7 +35,7 @@ ASSUMPTIONS = [
 REQUIRED_MONITORS = ['file:row_numbers_compared', 'verdicts:compared', 'rows:flags_compared', 'rows:n_failures_compared', 'file:exists_iff_failed',
                      'file:content_compared', 'input:unchanged_checked', 'partition:checked', 'history:stale_file',
                      'reach:write_detected_records']
-REQUIRED_CLASSES = ['index=custom', 'fmt=none', 'fmt=csv', 'fmt=parquet', 'per_constraint=1', 'write_all=1', 'in_place=1',
+REQUIRED_CLASSES = ['index=custom', 'index=repeated_labels', 'fmt=none', 'fmt=csv', 'fmt=parquet', 'per_constraint=1', 'write_all=1', 'in_place=1',
                     'interleave=1', 'boolean_ints=1', 'index=1', 'outcome=clean', 'outcome=failing',
                     'stale=earlier-run', 'stale=unrelated']
 NAMES = ['a', 'b', 'c', 'd', 'colE', 'f1']
@@ -78,13 +78,17 @@ def gen_case(rng, i):
             # False = "the frame came from a file": a written row-number column refers to positions in the input (from 1)
             'rownumber_is_index': not (fmt and rng.random() < 0.25)}
     n = spec['nrows']
-    ik = rng.choice(['default', 'default', 'permuted', 'offset', 'reversed'])
+    ik = rng.choice(['default', 'default', 'permuted', 'offset', 'reversed', 'repeated'])
     if ik == 'permuted':
         spec['index'] = rng.sample(range(n), n)
     elif ik == 'offset':
         spec['index'] = [100 + 3 * t for t in range(n)]
     elif ik == 'reversed':
         spec['index'] = list(range(n - 1, -1, -1))
+    elif ik == 'repeated' and n >= 2:
+        # labels that occur more than once (two batches concatenated without renumbering)
+        h = rng.choice([max(1, n // 2), max(1, n // 3), 1])
+        spec['index'] = [t % h for t in range(n)]
     return {'spec': spec, 'cset': cset, 'epsilon': rng.choice([None, 0, 0.01, 0.5]), 'opts': opts, 'fmt': fmt,
             'type_checking': rng.choice([None, None, 'strict', 'sloppy']),
             'stale': rng.choice([None, None, 'earlier-run', 'unrelated']) if fmt else None}
@@ -125,6 +129,7 @@ def run_case(ctx, case):
         kw['type_checking'] = case['type_checking']
     sem = {'epsilon': case['epsilon'], 'type_checking': case.get('type_checking')}
     cls = [('fmt=%s' % (case['fmt'] or 'none'),), ('type_checking=%s' % case.get('type_checking'),), ('stale=%s' % case['stale'],), ('index=%s' % ('custom' if spec.get('index') is not None else 'default'),)] + \
+          ([('index=repeated_labels',)] if spec.get('index') is not None and len(set(spec['index'])) < len(spec['index']) else []) + \
           [('%s=%d' % (k, bool(o.get(k, True))),) for k in ('per_constraint', 'write_all', 'index', 'in_place', 'interleave', 'boolean_ints', 'rownumber_is_index')] + \
           [('output_fields=%s' % ('none' if o['output_fields'] is None else 'all' if o['output_fields'] == [] else 'some'),)]
     outdir = os.path.join(ctx.scratch, 'c06out')
